@@ -161,6 +161,9 @@ structure Env where
   specClean : Bool := true
   /-- the error the last write on the stream failed with (a failed write is *finished*) -/
   specFailed : Option StreamErr := none
+  /-- what `stop_sending` owes the peer (`H3.QuinnAdapter.StopSpec`, reading R-17): fed with the calls
+      and with whether Quinn's read future completed — the ownership machine `recv` is not consulted -/
+  specStop : StopSpec := {}
   -- second part: openers, unsplit stream, unframed writes, datagrams, special set-ups
   client : Bool := true
   hs : String := ""
@@ -287,7 +290,13 @@ def doSend (e : Env) (tag : String) (hdr pl : Bytes) : Env × Bool × String × 
   | .refused => ({ e with send := s' }, false, tag ++ "=refused", sp)
   | .ok => ({ e with send := s', specBusy := true, specPending := hdr ++ pl }, true, tag ++ "=ok", sp)
 
-/-- What the adapter's read future does when polled now (`await = false`) or when awaited. -/
+/-- What the adapter's read future does when polled now (`await = false`) or when awaited.
+    Quinn reports the peer's reset ONCE: `poll_read_generic` sets `all_data_read` together with
+    `Err(Reset(code))`, and every later read of that stream answers `Ok(None)` — so a `poll_data` made
+    after `StreamTerminated{code}` was reported answers the end of the stream (`allRead`). That is
+    Quinn's answer, handed on unchanged by the adapter; the specification demands the class and the
+    code on the first read that meets the reset and has no opinion on later reads (reading R-17,
+    observation (b); what h3 makes of such a read is R-07 (a) / O-07b). -/
 def readEv (e : Env) (await : Bool) : ReadEv × Env :=
   if e.zeroRej then (.err .zeroRttRejected, e) else
   if e.allRead then (.fin, e) else
@@ -324,7 +333,7 @@ def specRecv (tag : String) (o : RecvOut) : String :=
 def doRead (e : Env) (await : Bool) : Env × RecvOut :=
   let (ev, e) := readEv e await
   let (r', o) := e.recv.step (.pollData ev)
-  let e := { e with recv := r' }
+  let e := { e with recv := r', specStop := e.specStop.step (.pollData ev) }
   ({ e with allRead := e.allRead || (!r'.stops.isEmpty && !e.zeroRej) }, o)
 
 /-- `rdall`: poll until the end or an error (fuel: one data event, then a terminal one, suffices). -/
@@ -483,6 +492,20 @@ def psAll : Nat → Env → List Bytes → Env × List Bytes × String
     | .ok _ => psAll n e' o.buf
     | r => (e', o.buf, sendOutStr r true)
 
+/-- The specification's answer to `pstopped` (reading R-17, DESIGN.md section 9). A stop that is *due*
+    (`StopSpec`: `stop_sending(c)` was called with no read in flight, or the read that was in flight
+    has completed since) must have reached the peer: its writer sees STOP_SENDING with exactly the
+    code handed in — one of the codes, if several calls were made during one pending read — within
+    the operation's timeout; `timeout`, Quinn's implicit 0 and any other code are failures. No
+    opinion: nothing due (no stop asked for, or asked for during a read that never completed — the
+    unchanged adapter then loses the code, observation (a) of R-17, outside the property's text);
+    a peer that has already ended or reset its side (a STOP_SENDING need not be observable any
+    more); a connection that is failing; a rejected 0-RTT stream. -/
+def specStopped (e : Env) : String :=
+  if e.specStop.due.isEmpty || e.peerFin || e.peerReset.isSome || e.connKnown.isSome || e.connComing.isSome
+     || e.idle || e.zeroRej || e.peerGone || !e.hasRecv then "*"
+  else "|".intercalate (e.specStop.due.eraseDups.map fun c => s!"pstopped={c}")
+
 def step (e : Env) (op : String) : Option (Env × String × String) :=
   let p := op.splitOn ":"
   let num (i : Nat) : Option Nat := (p[i]?).bind (·.toNat?)
@@ -541,12 +564,12 @@ def step (e : Env) (op : String) : Option (Env × String × String) :=
     | none => none
     | some c =>
       let (r', o) := e.recv.step (.stopSending c)
-      let e := { e with recv := r' }
+      let e := { e with recv := r', specStop := e.specStop.step (.stopSending c) }
       some ({ e with allRead := e.allRead || (!r'.stops.isEmpty && !e.zeroRej) }, (if o == .panic then "stop=panic" else "stop"), "*")
   else if h == "dropr" then
     if !e.hasRecv || e.unsplit then none else
     let (r', _) := e.recv.step .drop
-    some ({ e with recv := r' }, "dropr", "*")
+    some ({ e with recv := r', specStop := e.specStop.step .drop }, "dropr", "*")
   else if h == "aclose" then
     match num 1 with
     | none => none
@@ -581,11 +604,12 @@ def step (e : Env) (op : String) : Option (Env × String × String) :=
     | none => none
     | some c => some ({ e with peerReset := e.peerReset.orElse fun _ => some c }, h, "*")
   else if h == "pstopped" then
+    let sp := specStopped e
     match e.recv.stops.head? with
-    | some c => some (e, s!"pstopped={c}", "*")
+    | some c => some (e, s!"pstopped={c}", sp)
     | none =>
-      if !e.recv.alive then some (e, (if e.allRead then "pstopped=none" else "pstopped=0"), "*")
-      else some (e, "pstopped=timeout", "*")
+      if !e.recv.alive then some (e, (if e.allRead then "pstopped=none" else "pstopped=0"), sp)
+      else some (e, "pstopped=timeout", sp)
   else if h == "pclose" then
     if e.peerGone then none else
     match num 1 with
@@ -763,15 +787,14 @@ def runOps : Env → List String → Option (List String × List String)
       | none => none
       | some (ms, ss) => some (m :: ms, s :: ss)
 
-/-- A specification token `a|b` offers two answers. The line printed is the one with every first
-    answer, plus, for each such token, the alternative "same up to here, then `b`, then anything". -/
+/-- A specification token `a|b|…` offers several answers. The line printed is the one with every first
+    answer, plus, for each such token and each further answer `b`, the alternative "same up to here,
+    then `b`, then anything". -/
 def firstAlt (t : String) : String := (t.splitOn "|").headD t
 def specAlts : List String → List String → List String
   | _, [] => []
   | pre, t :: r =>
-    (match t.splitOn "|" with
-     | [_, b] => [" ".intercalate (pre ++ [b, "**"])]
-     | _ => []) ++ specAlts (pre ++ [firstAlt t]) r
+    ((t.splitOn "|").drop 1).map (fun b => " ".intercalate (pre ++ [b, "**"])) ++ specAlts (pre ++ [firstAlt t]) r
 def specLine (ss : List String) : String :=
   " || ".intercalate (" ".intercalate (ss.map firstAlt) :: specAlts [] ss)
 
